@@ -102,6 +102,12 @@ claimed["C20"]=dict(
    text="Exact type-level decision on the current source: no operand of a fmt / log / krberror / Log call and no value handed to encoding/json can reach key material or a password through its fields (fmt: all fields, json: exported and not json:\"-\"). It is flow-insensitive: secrets copied into plain byte slices or strings lose their label, hex/base64 encodings and dependency output are not covered (listed as not decided). Not a solver-discharged proof, hence category 'other'.",
    note="Trusted: the source and sink tables in gowp/props.go. Bounded: re-encoded tickets never contain the decrypted session key.",
    design="4/C20")
+claimed["C10"]=dict(
+   technique="contract-based deductive verification of the clauses a per-function contract can express: validity window of cache hits (clock readings as ghost values, entry times as ghost records of the locked read), field-exact postcondition of session.update, recursion variants for referral chains (also through inlined helpers); discharged by z3/cvc5 via gowp",
+   category="proof",
+   text="Proved: cache hits without renewal lie inside the entry's validity at the clock readings taken, a renewed TGT session records exactly the KDC reply's values, referral chains are bounded. The protocol-level clauses of the property (what a conformant KDC returns for a login or an SPN, well-formedness of the requests, auto-renewal over time) are not expressible as per-function contracts and are listed as not decided; reply matching is C09.",
+   note="Partial claim: see not_decided in the evidence.",
+   design="4/C10")
 hooks=subprocess.run("git -C /repo log --format='%H %s' | grep ' verif:' | awk '{print $1}'",shell=True,capture_output=True,text=True).stdout.split()
 m={"version":1,
  "setup_cmd":"./setup.sh",
